@@ -32,6 +32,7 @@ func init() {
 			{ID: "C12.8", Desc: "saturated delta-seconds stay saturated in later sums", Run: func(c *Ctx) { ruleDurationSums(c, "C12.8") }, MinSites: 2},
 			{ID: "C12.7", Desc: "in the list splitter an escaped character is consumed before quotes and commas are interpreted", Run: ruleC12_7, MinSites: 1},
 			{ID: "C12.13", Desc: "a backslash outside a quoted-string escapes nothing", Run: func(c *Ctx) { ruleEscapeOnlyInQuotes(c, "C12.13") }, MinSites: 1},
+			{ID: "C12.14", Desc: "directive maps are read through the accessors only", Run: func(c *Ctx) { ruleDirectiveMapsThroughAccessors(c, "C12.14") }, MinSites: 1},
 		},
 	})
 }
